@@ -10,7 +10,6 @@ RULE = ("seeded command trees (depth <= 2 quick / 3 thorough, fan-out <= 3, alia
         "commands, 0-2 options and arguments per command, some with colliding sibling aliases) x all lines of <= 3 tokens over the "
         "tree's names and aliases + a wrong name, '-v', a known and an unknown option, '--', '' and a value, + random lines of 4-6 "
         "tokens; non-trivial = a line whose path has >= 1 matched name; distinct by (tree, line)")
-THEOREMS = ["leading_stops", "tail_invariant", "options_invariant", "walk_prefix", "resolve_unknown", "resolve_empty", "alias_step"]
 TRUSTED = ["parsability of default sub-commands (first parsable, else first) is observed on the real commands for the oracle"]
 ASSUMPTIONS = ["sibling names/aliases pairwise distinct for the oracle's deepest-path clause (the code does not enforce it; trees "
                "violating it are still compared model vs implementation)"]
